@@ -347,7 +347,7 @@ func runC04(c *Ctx) {
 
 	// R4.4
 	r.Rule("R4.4", "extension / version symmetry: Read and Write skip a field exactly when `!isV2 && isExtension`, before touching the buffer; Write's buffer has size() bytes = sizeExtended for v2 and sizeNormal for v1; "+
-		"each field is read/written at the struct field given by its own index", 4)
+		"each field is read/written at the struct field given by its own index", 3)
 	for _, v := range []struct {
 		fn   *ssa.Function
 		call string
@@ -355,7 +355,7 @@ func runC04(c *Ctx) {
 		calls := callsNamed(v.fn, v.call)
 		// edges on which "isV2" holds / "the field is an extension" does not hold, inside the field loop
 		type condEdge struct {
-			iff      *ssa.If
+			iff     *ssa.If
 			yes, no *ssa.BasicBlock
 		}
 		var v2Ifs, extIfs []condEdge
@@ -418,26 +418,45 @@ func runC04(c *Ctx) {
 		}
 		r.Check(ok, "R4.4", fnLocalName(v.fn)+" extension skipping", c.Pos(v.fn.Pos()), "skip iff !isV2 && isExtension", why)
 	}
-	if sz := c.Fn("pkg/message", "ReadWriter.size"); sz != nil {
-		ok := false
-		for _, iff := range ifsIn(sz) {
-			if t, f, hit := succWhen(iff, "arg0"); hit {
-				rt, ok1 := t.Instrs[len(t.Instrs)-1].(*ssa.Return)
-				rf, ok2 := f.Instrs[len(f.Instrs)-1].(*ssa.Return)
-				if ok1 && ok2 && ex(rt.Results[0]) == "recv.sizeExtended" && ex(rf.Results[0]) == "recv.sizeNormal" {
-					ok = true
+	// the encode buffer has sizeExtended bytes for v2 and sizeNormal for v1: through the size(isV2) helper, or selected in
+	// line (the helper, where it exists, is checked as part of the same obligation)
+	okBuf := false
+	whyBuf := "the encode buffer is not allocated with (isV2 ? sizeExtended : sizeNormal) bytes"
+	for _, in := range allInstrs(wr) {
+		ms, ok := in.(*ssa.MakeSlice)
+		if !ok || typeStr(ms.Type()) != "[]byte" {
+			continue
+		}
+		l := ms.Len
+		if cv, ok := l.(*ssa.Convert); ok {
+			l = cv.X
+		}
+		if call, ok := l.(*ssa.Call); ok && ex(call) == "(message.ReadWriter).size(recv,arg1)" {
+			if sz := c.FnOpt("pkg/message", "ReadWriter.size"); sz != nil {
+				r.Functions[fnQual(sz)] = true
+				for _, iff := range ifsIn(sz) {
+					if t, f, hit := succWhen(iff, "arg0"); hit {
+						rt, ok1 := t.Instrs[len(t.Instrs)-1].(*ssa.Return)
+						rf, ok2 := f.Instrs[len(f.Instrs)-1].(*ssa.Return)
+						if ok1 && ok2 && ex(rt.Results[0]) == "recv.sizeExtended" && ex(rf.Results[0]) == "recv.sizeNormal" {
+							okBuf = true
+						}
+					}
+				}
+				for _, ret := range retInstrs(sz) {
+					if selectsBy(sz, ret.Results[0], "arg0", "recv.sizeExtended", "recv.sizeNormal") {
+						okBuf = true
+					}
+				}
+				if !okBuf {
+					whyBuf = "size(isV2) must return sizeExtended for v2 and sizeNormal for v1"
 				}
 			}
-		}
-		r.Check(ok, "R4.4", "ReadWriter.size", c.Pos(sz.Pos()), "v2 → sizeExtended, v1 → sizeNormal", "size(isV2) must return sizeExtended for v2 and sizeNormal for v1")
-	}
-	okBuf := false
-	for _, in := range allInstrs(wr) {
-		if ms, ok := in.(*ssa.MakeSlice); ok && (ex(ms.Len) == "int((message.ReadWriter).size(recv,arg1))" || ex(ms.Len) == "(message.ReadWriter).size(recv,arg1)") {
+		} else if selectsBy(wr, ms.Len, "arg1", "recv.sizeExtended", "recv.sizeNormal") {
 			okBuf = true
 		}
 	}
-	r.Check(okBuf, "R4.4", "ReadWriter.Write buffer size", c.Pos(wr.Pos()), "make([]byte, size(isV2))", "the encode buffer is not allocated with size(isV2) bytes")
+	r.Check(okBuf, "R4.4", "ReadWriter.Write buffer size", c.Pos(wr.Pos()), "make([]byte, isV2 ? sizeExtended : sizeNormal)", whyBuf)
 
 	ruleStrings(c, "R4.5")
 	ruleValueCodecs(c, "R4.6")
